@@ -61,13 +61,23 @@ pub fn bases(kind: &str) -> Vec<Vec<u8>> {
             _ => {}
         }
     }
-    match kind {
+    // layout variants: lines reached through a blank line and indented; clauses split over lines
+    // with indented continuation lines (line_start / mark handling after `newline`)
+    let variants: Vec<Vec<u8>> = match kind {
+        "cnf" => vec![b"p cnf 3 2\n\n  1 -3 0\n\n\t2 3 -1 0\n".to_vec(), b"p cnf 3 2\n1\n  -3 0\n2 3\n\t -1\n   0\n".to_vec(), b"\n  p cnf 3 2\n1 -3 0\n2 3 -1 0\n".to_vec()],
+        "wcnf" => vec![b"p wcnf 3 2 10\n\n  10 1 -2 0\n\n\t3 2 3 0\n".to_vec(), b"p wcnf 3 2 10\n10\n  1 -2 0\n3\n\t2 3\n   0\n".to_vec()],
+        "gcnf" => vec![b"p gcnf 3 2 2\n\n  {1} 1 -2 0\n\n\t{2} 3 0\n".to_vec(), b"p gcnf 3 2 2\n{1}\n  1 -2 0\n{2}\n\t3\n   0\n".to_vec()],
+        _ => vec![],
+    };
+    let mut all = variants;
+    all.extend(match kind {
         "cnf" => vec![b"p cnf 3 2\n1 -3 0\n2 3 -1 0\n".to_vec(), long],
         "wcnf" => vec![b"p wcnf 3 2 10\n10 1 -2 0\n3 2 3 0\n".to_vec(), long],
         "gcnf" => vec![b"p gcnf 3 2 2\n{1} 1 -2 0\n{2} 3 0\n".to_vec(), long],
         "log" => vec![b"s SATISFIABLE\nv 1 -2 3\nv -4 0\n".to_vec()],
         _ => vec![],
-    }
+    });
+    all
 }
 
 pub fn corruptions(kind: &str) -> Vec<Corruption> {
@@ -79,7 +89,8 @@ pub fn corruptions(kind: &str) -> Vec<Corruption> {
     };
     for base in bases(kind) {
         let toks = tokens_of(&base);
-        let first_line_tokens = toks.iter().filter(|t| t.line == 1).count();
+        // the header is the line that starts with the token "p"
+        let header_line = toks.iter().find(|t| &base[t.start..t.end] == b"p").map_or(0, |t| t.line);
         for (i, t) in toks.iter().enumerate() {
             let text = &base[t.start..t.end];
             let mut push = |what: &str, with: &[u8], span: usize| {
@@ -111,7 +122,7 @@ pub fn corruptions(kind: &str) -> Vec<Corruption> {
             }
             // literal beyond the declared variable count: only clause literals (not the header, not the
             // terminating zero, not a wcnf weight = first token of a line)
-            let is_header = t.line == 1 && i < first_line_tokens;
+            let is_header = t.line == header_line;
             let first_on_line = i == 0 || toks[i - 1].line != t.line;
             if !is_header && is_number(text) && text != b"0" && !(kind == "wcnf" && first_on_line) {
                 push("literal out of range", b"77", 2);
